@@ -152,18 +152,27 @@ def scan(pattern):
     return norm(out)
 
 
-_UNSPEC = None
+_UNSPEC = {}
 
 
-def unicode_shorthand_extras():
-    r"""Code points that only the Unicode-aware \d \s \w add beyond their ASCII definitions."""
-    global _UNSPEC
-    if _UNSPEC is None:
-        d = diff(scan(r'\d'), ((0x30, 0x39),))
-        s = diff(scan(r'\s'), from_chars(' \t\n\r\x0b\x0c'))
-        w = diff(scan(r'\w'), norm([(0x30, 0x39), (0x41, 0x5A), (0x5F, 0x5F), (0x61, 0x7A)]))
-        _UNSPEC = union(union(d, s), w)
-    return _UNSPEC
+def unicode_shorthand_extras(kinds=('d', 's', 'w')):
+    r"""Code points that only the Unicode-aware \d / \s / \w (the ones named in `kinds`) add beyond their ASCII definitions."""
+    key = ''.join(sorted(set(kinds)))
+    if key not in _UNSPEC:
+        parts = ()
+        if 'd' in key:
+            parts = union(parts, diff(scan(r'\d'), ((0x30, 0x39),)))
+        if 's' in key:
+            parts = union(parts, diff(scan(r'\s'), from_chars(' \t\n\r\x0b\x0c')))
+        if 'w' in key:
+            parts = union(parts, diff(scan(r'\w'), norm([(0x30, 0x39), (0x41, 0x5A), (0x5F, 0x5F), (0x61, 0x7A)])))
+        _UNSPEC[key] = parts
+    return _UNSPEC[key]
+
+
+def shorthand_kinds(text):
+    """Which of the shorthands \d \s \w (either case) occur in an emitted class text."""
+    return {m.lower() for m in re.findall(r'\\([dswDSW])', text)}
 
 
 # ---------------------------------------------------------------------------------------------
@@ -200,7 +209,7 @@ LOOSE = {
 }
 WORD = norm([_r('a', 'z'), _r('A', 'Z'), _r('0', '9'), _r('_', '_')])
 # classes documented in terms of a shorthand: Unicode extras are unspecified for them
-SHORTHAND_NAMED = {'AnyDigit', 'AnyWhitespace', 'AnyButDigit', 'AnyButWhitespace'}
+SHORTHAND_NAMED = {'AnyDigit': {'d'}, 'AnyButDigit': {'d'}, 'AnyWhitespace': {'s'}, 'AnyButWhitespace': {'s'}}
 
 TOKENS = {
     'Backslash': '\\', 'Bullet': '•', 'CarriageReturn': '\r', 'Copyright': '©',
@@ -218,12 +227,12 @@ TOKENS = {
 class Val:
     """Model value of a class expression: polarity + the set written between the brackets."""
 
-    def __init__(self, negated, inner, is_any=False, global_word=False, shorthand=False):
+    def __init__(self, negated, inner, is_any=False, global_word=False, shorthand=()):
         self.negated = negated      # True: matches the complement of `inner`
         self.inner = inner          # interval set written inside [...]: matched (regular) / excluded (negated)
         self.is_any = is_any
         self.global_word = global_word   # instance of AnyWordChar/AnyButWordChar with is_global=True
-        self.shorthand = shorthand       # some leaf is documented through \d \s \w
+        self.shorthand = set(shorthand)  # which of \d \s \w some leaf is documented through ('d', 's', 'w')
 
     def matched(self):
         if self.is_any:
@@ -282,7 +291,7 @@ def model(e, leaf_set=None):
         v = model(e)
         if not v.is_any:
             v.inner, uses_shorthand = leaf_set(e, v.negated)
-            v.shorthand = v.shorthand or uses_shorthand
+            v.shorthand = set(v.shorthand) | set(uses_shorthand)
         return v
     if k in ('from', 'butfrom'):
         if len(e[1]) == 0:
@@ -300,12 +309,12 @@ def model(e, leaf_set=None):
             return Val(False, FULL, is_any=True)
         if name.startswith('AnyBut'):
             base = 'Any' + name[len('AnyBut'):]
-            return Val(True, NAMED[base], shorthand=base in SHORTHAND_NAMED)
-        return Val(False, NAMED[name], shorthand=name in SHORTHAND_NAMED)
+            return Val(True, NAMED[base], shorthand=SHORTHAND_NAMED.get(base, ()))
+        return Val(False, NAMED[name], shorthand=SHORTHAND_NAMED.get(name, ()))
     if k == 'word':
-        return Val(False, WORD, global_word=bool(e[1]), shorthand=True)
+        return Val(False, WORD, global_word=bool(e[1]), shorthand={'w', 'd'})
     if k == 'butword':
-        return Val(True, WORD, global_word=bool(e[1]), shorthand=True)
+        return Val(True, WORD, global_word=bool(e[1]), shorthand={'w', 'd'})
     if k == 'inv':
         v = model(e[1], leaf_set)
         if v.is_any:
@@ -334,7 +343,7 @@ def model(e, leaf_set=None):
         a, b = xs
         if a.negated != b.negated:
             raise Raises([exc], 'regular with negated')
-        sh = a.shorthand or b.shorthand
+        sh = set(a.shorthand) | set(b.shorthand)
         if k == 'or':
             if a.is_any or b.is_any:
                 return Val(False, FULL, is_any=True)
@@ -350,7 +359,7 @@ def model(e, leaf_set=None):
             # code points that only the Unicode-aware shorthands add are unspecified: the result is certainly
             # non-empty when something outside that region is left, certainly empty when nothing is left and the
             # minuend has nothing inside the region, and undetermined otherwise
-            u = unicode_shorthand_extras()
+            u = unicode_shorthand_extras(sh)
             if not diff(rest, u):
                 if intersect(a.inner, u):
                     raise Unspecified('emptiness depends on Unicode-only members of a shorthand class')
@@ -457,13 +466,13 @@ def compare(e, text, val):
     """
     got = scan(text)
     want = val.matched()
-    masked = val.shorthand or re.search(r'\\[dswDSW]', text) is not None
+    masked = set(val.shorthand) | shorthand_kinds(text)
     if masked:
-        m = unicode_shorthand_extras()
+        m = unicode_shorthand_extras(masked)
         got, want = diff(got, m), diff(want, m)
     if got == want:
         return None
     extra, missing = diff(got, want), diff(want, got)
     return (f'emitted {text!r} matches {size(got)} code points, model {size(want)}; '
             f'wrongly matched {show(extra)}; wrongly rejected {show(missing)}'
-            + (' [unicode shorthand extras masked]' if masked else ''))
+            + (f' [unicode-only members of \\{"/\\".join(sorted(masked))} masked]' if masked else ''))
